@@ -517,3 +517,9 @@ func Tier() string {
 }
 
 func Thorough() bool { return Tier() == "thorough" }
+
+// SaveReplay writes a replay file for a case found outside rapid (enumerations).
+func SaveReplay[C any](s Spec[C], c C, verr error) string {
+	b, _ := json.Marshal(c)
+	return writeReplay(s.Prop, s.Name, b, verr)
+}
